@@ -151,18 +151,18 @@ func init() {
 		LevelNote: "trusts go/types, go/ssa, VTA call graph (x/tools v0.50.0); reader protocol axiom (Read yields nil for ever at EOF) re-derived structurally under C02/C03; reviewed exceptions are printed in the evidence", DesignRef: "4 NT, REG; 5 C01"})
 
 	claim("C02", PropertySpec{
-		Engines: []EngineSpec{all("EL"), all("REC")},
-		Clause: "Structural necessary conditions of 'terminates without the watchdog': (EL) every non-range loop whose body reads input (47 today) leaves when the input is exhausted — decided by abstract execution from the loop header in the EOF environment with unknown loop-carried state; loops that do not read input need a recognised ranking function or a reviewed exception; (REC) recursion over the user-defined inheritance graph carries a cycle guard.",
-		NotCovered: "livelock on non-empty input (read/unget ping-pong), termination of the evaluator's mutual recursion, getChainMethodReturnType (depends on TFrame contents), the watchdog firing under machine load",
+		Engines: []EngineSpec{all("EL"), all("REC"), rules("RCL", "RCL-progress", "RCL-cycle")},
+		Clause: "Structural necessary conditions of 'terminates without the watchdog': (EL) every non-range loop whose body reads input (47 today) leaves when the input is exhausted — decided by abstract execution from the loop header in the EOF environment with unknown loop-carried state; loops that do not read input need a recognised ranking function or a reviewed exception; (REC) recursion over the user-defined inheritance graph carries a cycle guard; (RCL) in the lexer every delivered token and every loop iteration consumes at least one rune, for every rune class.",
+		NotCovered: "livelock on non-empty input above the lexer (token-level read/unget ping-pong in the evaluator), termination of the evaluator's mutual recursion, getChainMethodReturnType (depends on TFrame contents), the watchdog firing under machine load",
 	}, propMeta{Technique: "abstract interpretation of loops at EOF over go/ssa (ranking argument: remaining input is 0 and cannot decrease) + call-graph SCC rule for graph recursion",
 		LevelText: "all input-driven loops and all graph recursions of the source are enumerated and decided; a cycle that returns to the loop header in an unchanged abstract state at EOF is a definite non-termination (every witness is a truncated file).",
 		LevelNote: "trusts go/ssa loop structure (dominator back edges); integers are widened beyond ±24; the reader protocol (nil token for ever at EOF)", DesignRef: "4 EL, REC; 5 C02"})
 
 	claim("C03", PropertySpec{
-		Engines: []EngineSpec{inPkgs("EL", "lexer", "lexer/reader"), rules("REG", "REG-tok", "REG-eos")},
-		Clause: "Structural necessary conditions for the tokenizer: (EL) every rune-reading loop of the lexer leaves at end of input; (REG-tok) every token kind the lexer can store is a case of the parser's read switch (no 'read error' by construction); (REG-eos) the end-of-input sentinel of the rune reader cannot occur inside the input.",
-		NotCovered: "which tokens are produced; the bound of the token count by the input length on non-EOF input (progress clause) is not decided in this revision",
-	}, propMeta{Technique: "abstract interpretation of lexer loops at EOF + producer/consumer agreement of token-kind constants over the type-checked AST",
+		Engines: []EngineSpec{inPkgs("EL", "lexer", "lexer/reader"), rules("REG", "REG-tok", "REG-eos"), all("RCL")},
+		Clause: "Structural conditions for the tokenizer, decided for every rune class (the rune domain is partitioned so that each predicate the lexer applies is constant on a class): (RCL-eos) the token function reports end-of-stream only when the last rune read is the end-of-input sentinel, so no rune of the input stops tokenising early; (RCL-progress) every return that delivers a token has consumed at least one rune, so the number of tokens is bounded by the number of runes; (RCL-cycle) no loop of the lexer comes back to its header without net consumption; (EL) every rune-reading loop leaves at end of input; (REG-tok) every token kind the lexer can store is a case of the parser's read switch (no 'read error' by construction); (REG-eos) the end-of-input sentinel of the rune reader cannot occur inside the input.",
+		NotCovered: "which tokens are produced and their values",
+	}, propMeta{Technique: "rune-class abstract interpretation of the lexer over go/ssa (predicate abstraction with an exact finite partition, reader modelled by un-read flag / current-rune class / net consumption, function summaries) + abstract interpretation of lexer loops at EOF + producer/consumer agreement of token-kind constants",
 		LevelText: "all lexer loops, all stores to the token-kind field and all cases of the read switch are enumerated; agreement is decided exactly on resolved constants.",
 		LevelNote: "trusts go/types constant evaluation; the token-kind field and the read switch are resolved by role (rune field of Lexer, switch on the rune field of Parser in the read primitive)", DesignRef: "4 EL, REG-tok, REG-eos; 5 C03"})
 
